@@ -14,6 +14,9 @@ import (
 
 const sentinelPrefix = "__sentinel"
 
+// how long a sync waits for the sentinel before declaring the feed dead (shorter while minimising)
+var sentinelTimeout = 30 * time.Second
+
 // Collector receives the events of one feed.
 type Collector struct {
 	Cfg        FeedCfg
@@ -70,6 +73,9 @@ func (w *World) startFeed(fc FeedCfg, backfill uint64, dump bool, checkpoint str
 	if fc.Multi {
 		scopes := map[string][]string{}
 		for i, cn := range w.Cfg.Colls {
+			if w.Model != nil && w.Model.Colls[i].Dropped {
+				continue
+			}
 			n := dsName(cn)
 			scopes[n.Scope] = append(scopes[n.Scope], n.Collection)
 			c.colls = append(c.colls, i)
@@ -115,14 +121,14 @@ func (c *Collector) covers(ci int) bool {
 	return false
 }
 
-// waitKey waits until an event with the given key has arrived; false on timeout / feed end.
-func (c *Collector) waitKey(key string, collID uint32, timeout time.Duration) bool {
+// waitCas waits until an event with the given CAS has arrived; false on timeout / feed end.
+func (c *Collector) waitCas(cas uint64, timeout time.Duration) bool {
 	deadline := time.Now().Add(timeout)
 	c.mu.Lock()
 	defer c.mu.Unlock()
 	for {
 		for i := len(c.evs) - 1; i >= 0; i-- {
-			if string(c.evs[i].Key) == key && c.evs[i].CollectionID == collID {
+			if c.evs[i].Cas == cas {
 				return true
 			}
 		}
@@ -148,19 +154,18 @@ func (c *Collector) take() []sgbucket.FeedEvent {
 	return out
 }
 
-var sentinelSerial int64
-
-// SyncFeeds writes a sentinel document per covered collection through the handle that started
-// each feed, waits for it (FIFO queue: everything pushed earlier has then been delivered), and
-// compares what each feed received with the expected events recorded since the last sync.
+// SyncFeeds writes and removes a sentinel document per covered collection, waits for the removal's
+// event (FIFO queue: everything pushed earlier has then been delivered), and compares what each
+// feed received with the expected events recorded since the last sync. The sentinel ends up as a
+// tombstone without xattrs, invisible to reads of model keys, views and queries.
 func (r *Run) SyncFeeds() {
 	w := r.W
 	if len(w.Feeds) == 0 {
 		r.Exp = nil
 		return
 	}
-	n := atomic.AddInt64(&sentinelSerial, 1)
-	key := fmt.Sprintf("%s%d", sentinelPrefix, n)
+	key := sentinelPrefix
+	sentCas := map[int]uint64{}
 	for ci := range w.Cfg.Colls {
 		if w.Model.Colls[ci].Dropped {
 			continue
@@ -174,18 +179,32 @@ func (r *Run) SyncFeeds() {
 		if !used {
 			continue
 		}
-		if err := w.Coll(0, ci).SetRaw(key, 0, nil, []byte("s")); err != nil {
+		ds := w.Coll(0, ci)
+		err := ds.SetRaw(key, 0, nil, []byte("s"))
+		var cas uint64
+		if err == nil {
+			_, cas, err = ds.GetRaw(key)
+		}
+		if err == nil {
+			cas, err = ds.Remove(key, cas)
+		}
+		if err != nil {
 			r.dev("feed.sentinel.write", []string{"C08"}, "sentinel write failed: %v", err)
 			r.Exp = nil
 			return
 		}
+		sentCas[ci] = cas
+		if r.sentTomb == nil {
+			r.sentTomb = map[int]bool{}
+		}
+		r.sentTomb[ci] = true
 	}
 	for fi, f := range w.Feeds {
 		for _, ci := range f.colls {
 			if w.Model.Colls[ci].Dropped {
 				continue
 			}
-			if !f.waitKey(key, w.Coll(0, ci).GetCollectionID(), 30*time.Second) {
+			if !f.waitCas(sentCas[ci], sentinelTimeout) {
 				r.dev("feed.sentinel", []string{"C08", "C16"}, "feed %d (%+v) never delivered the sentinel written to %s: feed is dead or starved", fi, f.Cfg, w.Cfg.Colls[ci])
 			}
 		}
@@ -323,6 +342,10 @@ func (r *Run) compareFeed(fi int, f *Collector, evs []sgbucket.FeedEvent) {
 			r.Devs = append(r.Devs, Deviation{Clause: "event.missing", Props: c08, Step: e.Step,
 				Msg: fmt.Sprintf("feed %d (%+v): no event for the %s of %s/%q at step %d (cas %#x)", fi, f.Cfg, e.OpK, w.Cfg.Colls[e.C], e.Key, e.Step, e.St.Cas),
 				Sig: "event.missing|" + e.OpK})
+			if r.DropHappened {
+				// after a collection drop, a feed of a *surviving* collection that loses events is an isolation failure too
+				r.Devs[len(r.Devs)-1].Props = []string{"C08", "C11", "C16"}
+			}
 			continue
 		}
 		if len(is) > 1 {
@@ -354,7 +377,13 @@ func (r *Run) compareFeed(fi int, f *Collector, evs []sgbucket.FeedEvent) {
 	}
 	for i, ev := range got {
 		if !used[i] {
-			r.Devs = append(r.Devs, Deviation{Clause: "event.spurious", Props: c08, Step: r.step,
+			props := c08
+			for _, e := range r.Exp {
+				if !f.covers(e.C) && e.Key == string(ev.Key) && e.St.Cas == ev.Cas {
+					props = []string{"C08", "C11"} // a mutation of a collection this feed does not cover
+				}
+			}
+			r.Devs = append(r.Devs, Deviation{Clause: "event.spurious", Props: props, Step: r.step,
 				Msg: fmt.Sprintf("feed %d (%+v): event %s key %q cas %#x does not correspond to any successful mutation", fi, f.Cfg, ev.Opcode, ev.Key, ev.Cas),
 				Sig: "event.spurious"})
 		}
